@@ -11,6 +11,16 @@ CHECKS = {
    note="Trusted: Coq kernel + vm_compute; the hand-written model's tie is differential (exhaustive placements n<=4, sampled to 10-12 qubits); libm cos/sin enter as harness-computed inputs; float rounding is not modelled (1e-12); OpenCL branch is C17.",
    design="6 C01"),
 }
+CHECKS["C03"] = dict(
+   technique="Coq proof, laws-free (rayon path = sequential path for every operator incl. error values; update lists in any order; chunk-size independence; split-tree sums) + impl-vs-impl bitwise comparison under both CPU paths, pool sizes, repeats and concurrent callers, one result tied to the model inside coqc",
+   text="Theorems in coq/theories/Props/C03.v. With no assumption on the scalar operations (so for IEEE binary64 as well): every operator's rayon path returns exactly the value of its sequential path for all sizes, arguments (valid or not) and vectors; the sequential write-as-you-go loop equals collect-then-apply for any write function; a duplicate-free update list may be applied in any order; chunked flat_map collection is independent of the chunk size (thread count). Over any monoid: a reduction over any binary split tree equals the left fold. The correspondence runs each real call on both CPU paths x rayon pools 1..16(61) x repeats x concurrent callers and compares all results bit for bit, and one of them with the Coq model.",
+   note="Partial: the scheduler's actual interleavings are sampled, not controlled; rayon's order-preserving collect and split-tree reduce are a stated library assumption; float reductions agree to 1e-12 numerically (exact-arithmetic half proved). Families covered so far: gate application (all operators).",
+   design="6 C03")
+CHECKS["C05"] = dict(
+   technique="Coq proof (apply accepted IFF documented validity rules, otherwise Err, never Panic; validate_qubits iff; guards of partial operations) + differential correspondence on boundary-value sweeps with outcome class as verdict",
+   text="Theorems in coq/theories/Props/C05.v over the model of validate_qubits and of every operator's apply (both duplicate-detection branches): the call returns Ok iff the arguments satisfy the documented rules (arity, every index < n, no control equal to a target incl. the matchgate's implicit target t+1, no repeated SWAP target, CNOT/Toffoli control count and distinctness), returns Err otherwise and never panics; every index/shift/subtraction of the code sits behind the check that guards it. The correspondence sweeps arity 0..3 and the values {0,1,n-2,n-1,n,n+1,63,64,2^32,usize::MAX} in every role for every operator on 1..5(7) and 10(..12) qubits, under catch_unwind with overflow checks on; verdict = outcome class Ok/Err/Panic against the validity Spec.",
+   note="Operator level (Operator::apply for all 20 operator kinds). Entry points above it (State::operate, measure, circuits) are added as their models are built. Error variant/payload is compared with the model but only reported.",
+   design="6 C05")
 NOT_YET = {}
 
 def main():
